@@ -922,13 +922,13 @@ impl<'f, 'i, 't> Parser<'f, 'i, 't> {
             .context("failed to parse century")?;
         self.inp = inp;
 
-        // OK because sign=={1,-1} and century can't be bigger than 2 digits
-        // so overflow isn't possible.
+        // OK because sign=={1,-1} and century is a non-negative i64.
         let century = sign.checked_mul(century).unwrap();
-        // Similarly, we have 64-bit integers here. Two digits multiplied by
-        // 100 will never overflow.
-        let year = century.checked_mul(100).unwrap();
-        // I believe the error condition here is impossible.
+        // A width (e.g., `%018C`) can permit more than two digits, in which
+        // case multiplying by 100 can overflow.
+        let year = century.checked_mul(100).ok_or_else(|| {
+            err!("century `{century}` is too big to be converted to a year")
+        })?;
         let year = t::Year::try_new("year", year)
             .context("year number (from century) is invalid")?;
         self.tm.year = Some(year);
